@@ -3,6 +3,7 @@ package rules
 import (
 	"fmt"
 	"go/types"
+	"sort"
 	"strings"
 
 	"golang.org/x/tools/go/ssa"
@@ -22,6 +23,7 @@ func checkC09(p *core.Prog, r *core.Report) {
 	c09R5(p, r)
 	c09R6(p, r)
 	c09R7(p, r)
+	c09R8(p, r)
 }
 
 func c09R1(p *core.Prog, r *core.Report) {
@@ -425,6 +427,63 @@ func c09R7(p *core.Prog, r *core.Report) {
 			r.Hold(rule, key, pos[q], fmt.Sprintf("ring %d >= capacity %d + 2", ring, c))
 		default:
 			r.Violate(rule, key, pos[q], fmt.Sprintf("queue capacity %d with a receive ring of %d buffers: when this pipeline stalls the reader refills a buffer that is still queued, the follower appends/replays a later record twice and loses the earlier one", c, ring), nil)
+		}
+	}
+}
+
+// c09R8: the live append file (Aof.aofFile) buffers records in memory
+// (wbuf/windex, dwbuf/dwindex) and is flushed by the log goroutines under the
+// append mutex. Every other writer of that buffer - including the follower's
+// file-transfer receiver, which appends transferred records to the live file
+// when the transfer reaches the current index - must hold the same mutex,
+// otherwise a concurrent flush writes a half-updated buffer: the follower's
+// append file gets duplicated or torn records and no longer equals the leader's.
+func c09R8(p *core.Prog, r *core.Report) {
+	const rule = "C09/R8"
+	r.Rule(rule, "buffer operations on the live append file (WriteLock, AppendLock, WriteLockData, Flush on Aof.aofFile) are made with the append mutex held, in every calling context", 6)
+	ops := map[string]bool{"WriteLock": true, "AppendLock": true, "WriteLockData": true, "Flush": true}
+	isOp := func(ins ssa.Instruction) bool {
+		c := core.StaticCallee(ins)
+		return c != nil && recvName(c) == "AofFile" && ops[c.Name()] && core.InModule(c)
+	}
+	type obs struct {
+		pos    string
+		unheld []string
+		n      int
+	}
+	sites := map[string]*obs{}
+	ls := &lockState{p: p, r: r, classes: map[string]bool{"aofGlock": true}, isEvent: isOp}
+	ls.observe = func(x *core.X, top *ssa.Function, entry string) {
+		if !isOp(x.Ins) {
+			return
+		}
+		recv := core.Plain(argCanon(x, x.Ins, 0))
+		if !strings.HasSuffix(recv, ".aofFile") {
+			return // a file opened locally (transfer target, rewrite output): not shared
+		}
+		key := siteKey(p, x.Ins)
+		o := sites[key]
+		if o == nil {
+			o = &obs{pos: x.Pos()}
+			sites[key] = o
+		}
+		o.n++
+		if !held(x, "aofGlock") {
+			o.unheld = append(o.unheld, ls.chain(top, entry))
+		}
+	}
+	ls.run()
+	keys := make([]string, 0, len(sites))
+	for k := range sites {
+		keys = append(keys, k)
+	}
+	sort.Strings(keys)
+	for _, k := range keys {
+		o := sites[k]
+		if len(o.unheld) > 0 {
+			r.Violate(rule, k, o.pos, "the live append file's buffer is written/flushed without the append mutex ("+o.unheld[0]+"): a concurrent flush by the log goroutine sees a half-updated buffer, records are duplicated or torn in the append file", nil)
+		} else {
+			r.Hold(rule, k, o.pos, "append mutex held in every context")
 		}
 	}
 }
